@@ -6,7 +6,7 @@ cd "$(dirname "$0")"
 export GOFLAGS=-mod=mod GOPROXY=off
 mkdir -p .build evidence
 cp /repo/go.sum harness/go.sum
-(cd harness && go build -tags verif -o ../.build/harness .)
+(cd harness && for d in cmd/*/; do go build -tags verif -o ../.build/$(basename $d) ./$d; done)
 command -v tlc >/dev/null
 command -v bash >/dev/null
 echo setup ok
